@@ -80,6 +80,29 @@ func c08Replay(class string, raw json.RawMessage) (bool, string) {
 	if len(c.Requests) == 0 {
 		return false, "no requests"
 	}
+	if c.Kind == "cleared-vs-fresh" {
+		s, fresh := search.New(c.Requests[0].TT), search.New(c.Requests[0].TT)
+		for _, q := range c.Requests[:len(c.Requests)-1] {
+			h, err := newHistory(q.FEN, q.Moves)
+			if err != nil {
+				return false, err.Error()
+			}
+			runSearch(s, h.B, q)
+		}
+		s.Clear()
+		q := c.Requests[len(c.Requests)-1]
+		h1, err := newHistory(q.FEN, q.Moves)
+		if err != nil {
+			return false, err.Error()
+		}
+		h2, _ := newHistory(q.FEN, q.Moves)
+		r1 := runSearch(s, h1.B, q)
+		r2 := runSearch(fresh, h2.B, q)
+		if d := c08Observe(s, &r1).diff(c08Observe(fresh, &r2), true); d != "" {
+			return true, "a cleared instance answers differently from a fresh one: " + d
+		}
+		return false, "cleared instance equals a fresh one"
+	}
 	run := func(hardLast bool) (c08Obs, error) {
 		s := search.New(c.Requests[0].TT)
 		var o c08Obs
@@ -141,6 +164,7 @@ type c08Game struct {
 	noCounters bool
 	start      searchReq
 	soft       int
+	hard       int // > 0: every search of the game runs under this hard node budget instead of a soft limit
 	depth      int
 	plies      int
 	tt         int
@@ -160,6 +184,13 @@ func c08Games(r *ev.Run) []c08Game {
 	for _, fen := range []string{"7k/8/8/8/8/8/r7/1R5K w - - 94 70", "8/8/4k3/8/8/3RK3/8/8 w - - 95 60", "6k1/5ppp/8/8/8/8/5PPP/3Q2K1 w - - 90 1", "4k3/8/8/8/8/8/8/3QK3 w - - 96 1"} {
 		for _, soft := range []int{5, 12, 40, 300} {
 			gs = append(gs, c08Game{start: searchReq{FEN: fen}, soft: soft, depth: 6, plies: 14, tt: 32000})
+		}
+	}
+	// games under hard budgets that cut the search in the middle of an iteration (mid-line aborts), and under
+	// budgets so small that no iteration completes (the fallback move path)
+	for i, hard := range []int{37, 113, 517, 2222, 9000, 1, 3, 7, 12, 20} {
+		for k := 0; k < ev.Pick(r, 2, 6); k++ {
+			gs = append(gs, c08Game{start: searchReq{FEN: br[(i*5+k*11+int(r.Seed))%len(br)].FEN}, hard: hard, depth: 7, plies: ev.Pick(r, 24, 60), tt: []int{32000, 1 << 20}[k%2], noCounters: k%2 == 1})
 		}
 	}
 	return gs
@@ -185,6 +216,9 @@ func c08PlayGame(r *ev.Run, g c08Game, judge bool, counters *[4]atomic.Int64) st
 			break
 		}
 		q := searchReq{FEN: g.start.FEN, Moves: append([]string(nil), moves...), Depth: g.depth, Nodes: -1, SoftNodes: g.soft, TT: g.tt, NoCounters: g.noCounters}
+		if g.hard > 0 {
+			q.Nodes, q.SoftNodes = g.hard, -1
+		}
 		rA := runSearch(sA, hA.B, q)
 		oA := c08Observe(sA, &rA)
 		fmt.Fprintf(&transcript, "%d %d %d %d\n%s", oA.Score, oA.Move, oA.Ponder, oA.Nodes, oA.Out)
@@ -196,6 +230,13 @@ func c08PlayGame(r *ev.Run, g c08Game, judge bool, counters *[4]atomic.Int64) st
 			if d := oA.diff(oC, true); d != "" {
 				r.Fail("twin", c08Case{Kind: "twin", Requests: append([]searchReq(nil), soft...)}, "two instances driven identically differ at search %d of the game from %s: %s", ply, g.start.FEN, d)
 				return transcript.String()
+			}
+			if g.hard > 0 {
+				counters[3].Add(1)
+				if !g.noCounters && oA.Nodes > g.hard {
+					r.Fail("budget-exceeded", c08Case{Kind: "twin", Requests: append([]searchReq(nil), soft...)}, "hard budget %d nodes, %d counted", g.hard, oA.Nodes)
+				}
+				goto played
 			}
 			// soft -> hard: the search that ended after N nodes, replayed with a hard budget of N
 			hq := q
@@ -217,6 +258,7 @@ func c08PlayGame(r *ev.Run, g c08Game, judge bool, counters *[4]atomic.Int64) st
 				return transcript.String()
 			}
 		}
+	played:
 		if rA.Move == 0 {
 			break
 		}
@@ -258,7 +300,7 @@ func runC08(r *ev.Run) {
 
 	// every iteration boundary j of a search: fresh instances, soft limit firing after iteration j vs hard budget n_j,
 	// followed by a second search on both (the state left behind observed behaviourally as well)
-	var boundaries atomic.Int64
+	var boundaries, midBudgets atomic.Int64
 	roots := universe.AllRoots()
 	step := ev.Pick(r, 3, 1)
 	ev.Parallel(len(roots), func(worker, item int) {
@@ -269,6 +311,29 @@ func runC08(r *ev.Run) {
 		h, _ := newHistory(root.FEN, nil)
 		tt := 32000
 		full := runSearch(search.New(tt), h.B, searchReq{FEN: root.FEN, Depth: 6, Nodes: -1, SoftNodes: -1, TT: tt})
+		// budgets strictly between two iteration boundaries cut the search in the middle of a line; whatever such a
+		// search leaves behind outside the stored state must not survive: after Clear() the instance answers like a fresh one
+		prev := 0
+		for _, il := range full.Infos {
+			if !il.Complete || il.Nodes == 0 || r.Expired() {
+				continue
+			}
+			if mid := (prev + il.Nodes) / 2; mid > prev && mid < il.Nodes {
+				sM, fresh := search.New(tt), search.New(tt)
+				for k := 0; k < 3; k++ {
+					runSearch(sM, h.B, searchReq{FEN: root.FEN, Depth: 6, Nodes: mid + k, SoftNodes: -1, TT: tt})
+				}
+				sM.Clear()
+				fq := searchReq{FEN: root.FEN, Depth: 4, Nodes: -1, SoftNodes: -1, TT: tt}
+				fM := runSearch(sM, h.B, fq)
+				fF := runSearch(fresh, h.B, fq)
+				midBudgets.Add(1)
+				if d := c08Observe(sM, &fM).diff(c08Observe(fresh, &fF), true); d != "" {
+					r.Fail("cleared-vs-fresh", c08Case{Kind: "cleared-vs-fresh", Requests: []searchReq{{FEN: root.FEN, Depth: 6, Nodes: mid, SoftNodes: -1, TT: tt}, fq}}, "%s: after three searches cut mid-iteration by hard budgets %d..%d and Clear(), the instance answers differently from a fresh one: %s", root.FEN, mid, mid+2, d)
+				}
+			}
+			prev = il.Nodes
+		}
 		for _, il := range full.Infos {
 			if !il.Complete || il.Nodes == 0 {
 				continue
@@ -353,11 +418,13 @@ func runC08(r *ev.Run) {
 	r.Set("game_searches", counters[0].Load())
 	r.Set("soft_hard_twins", counters[1].Load()+boundaries.Load())
 	r.Set("iteration_boundaries_enumerated", boundaries.Load())
+	r.Set("mid_iteration_budgets_then_clear", midBudgets.Load())
+	r.Set("hard_budget_game_searches", counters[3].Load())
 	r.Set("concurrent_game_replays", conc)
 	r.Set("race_pass", raceInfo)
 	r.Set("distinct_outcomes", map[string]int64{"hard_twins_that_aborted": counters[2].Load()})
 	r.Set("exhaustive", false)
-	r.Set("rule", "histories: engine-vs-engine games (tables carried over) where every search runs on two identically driven instances (results, reported lines with the time field masked, table/history/generation digests must be equal) and is replayed on a third with a hard budget equal to the nodes used (same result, same state left behind, budget never exceeded); every iteration boundary of a depth-6 search from the root corpus: soft limit firing after iteration j vs hard budget n_j, plus a follow-up search on both; half of the games call the search without WithCounters (as the UCI driver does); a pondering search with a hard budget stopped from outside never counts more than the budget; schedules: all games replayed on free-running goroutines must reproduce the sequential transcripts (complementary: the same body under the race detector); two instances interleaved at every poll of the instrumented search within the preemption bound must each reproduce their solo run")
+	r.Set("rule", "histories: engine-vs-engine games (tables carried over) where every search runs on two identically driven instances (results, reported lines with the time field masked, table/history/generation digests must be equal) and is replayed on a third with a hard budget equal to the nodes used (same result, same state left behind, budget never exceeded); every iteration boundary of a depth-6 search from the root corpus: soft limit firing after iteration j vs hard budget n_j, plus a follow-up search on both; further games under hard budgets that cut every search mid-iteration (37..9000 nodes) or before any iteration completes (1..20 nodes, the fallback move path), twins must agree; after every game and after searches cut between two iteration boundaries, Clear() must leave an instance that answers like a fresh one; half of the games call the search without WithCounters (as the UCI driver does); a pondering search with a hard budget stopped from outside never counts more than the budget; schedules: all games replayed on free-running goroutines must reproduce the sequential transcripts (complementary: the same body under the race detector); two instances interleaved at every poll of the instrumented search within the preemption bound must each reproduce their solo run")
 	r.Assume("state left behind observed through the verif digests (table bytes, history tables, generation) and behaviourally by the following searches of the same game")
 }
 
@@ -372,6 +439,7 @@ func c08Concurrent(r *ev.Run, games []c08Game, want []string) int64 {
 			wg.Add(1)
 			go func(i int) {
 				defer wg.Done()
+				defer ev.Guard()
 				got[i] = c08PlayGame(r, games[i], false, nil)
 			}(i)
 		}
@@ -399,14 +467,21 @@ func firstDiffLine(a, b string) string {
 
 // runC08Race is the body executed under the race detector by the race binary.
 func runC08Race(r *ev.Run) {
-	games := c08Games(r)[:12]
+	all := c08Games(r)
+	games := append([]c08Game(nil), all[:8]...)
+	for _, g := range all {
+		if g.hard > 0 && g.hard <= 20 && len(games) < 24 {
+			games = append(games, g) // no iteration completes: the fallback move path of concurrent instances
+		}
+	}
 	var wg sync.WaitGroup
 	for i := range games {
 		wg.Add(1)
 		go func(i int) {
 			defer wg.Done()
+			defer ev.Guard()
 			g := games[i]
-			g.plies = 6
+			g.plies = min(g.plies, 6+g.hard)
 			c08PlayGame(r, g, false, nil)
 		}(i)
 	}
@@ -427,11 +502,11 @@ func c08RacePass(r *ev.Run) string {
 	text := string(out)
 	if strings.Contains(text, "DATA RACE") {
 		ix := strings.Index(text, "WARNING: DATA RACE")
-		r.Fail("data-race", c08Case{Kind: "concurrent"}, "race detector report while 12 engine instances search concurrently:\n%s", firstLines(text[ix:], 30))
+		r.Fail("data-race", c08Case{Kind: "concurrent"}, "race detector report while up to 24 engine instances search concurrently:\n%s", firstLines(text[ix:], 30))
 		return "race reported"
 	}
 	if err != nil || !strings.Contains(text, "C08race done") {
 		return "race binary failed: " + trunc(text)
 	}
-	return "12 concurrent instances, no race reported (silence proves nothing)"
+	return "up to 24 concurrent instances (8 soft-limited games, the rest under hard budgets below 21 nodes), no race reported (silence proves nothing)"
 }
